@@ -154,7 +154,6 @@ def run(prop, tier):
     # design level: the width lemmas (Bytes) and the layout written by the policy is re-parsed into the
     # variants written / has every tail field representable (EntryStore, ContentPack)
     for name, module, cfg in [("MC_Bytes", "MC_Bytes", "CONSTANTS\n  Radix = 4\n  Bound = 80\nSPECIFICATION Spec\n"),
-                              ("MC_Bytes256", "MC_Bytes", "CONSTANTS\n  Radix = 256\n  Bound = 300\nSPECIFICATION Spec\n"),
                               ("MC_EntryStore_variants", "MC_EntryStore", PE.mc_cfg("variants", 3).replace("Replay ", "")),
                               ("MC_ContentPack_3", "MC_ContentPack", PC.mc_cfg(3, False, replay=False))]:
         r = C.tlc(module, cfg, "%s_C14" % name, timeout=900)
